@@ -32,6 +32,13 @@ type LoopSpec struct {
 	Decreases  []Clause
 }
 
+// RetSpec is a postcondition of one return statement (k-th in source order): it may
+// name the locals as they are at that return.
+type RetSpec struct {
+	K      int
+	Assert Clause
+}
+
 type CallSpec struct {
 	Callee string
 	K      int // 1-based ordinal of static call to Callee in the function; 0 = every call
@@ -51,6 +58,7 @@ type Contract struct {
 	Requires []Clause
 	Ensures  []Clause
 	Shows    []Clause // proved like ensures, but not assumed at call sites
+	Returns  []RetSpec
 	Modifies []string
 	HasMod   bool
 	Decr     []Clause
@@ -85,7 +93,7 @@ type ContractFile struct {
 }
 
 var clauseKeywords = map[string]bool{
-	"props": true, "requires": true, "ensures": true, "shows": true, "modifies": true, "decreases": true,
+	"props": true, "return": true, "requires": true, "ensures": true, "shows": true, "modifies": true, "decreases": true,
 	"loop": true, "call": true, "assert": true, "inline": true, "pure": true, "nopanic": true,
 	"trusted": true, "param": true, "let": true, "unclaimed": true,
 }
@@ -315,6 +323,28 @@ func addClause(cf *ContractFile, c *Contract, words []string, text, path string,
 		default:
 			return fmt.Errorf("%s:%d: bad loop clause kind %q", path, line, kind)
 		}
+	case "return":
+		// return k ensures[label] expr
+		if len(words) < 4 {
+			return fmt.Errorf("%s:%d: return k ensures expr", path, line)
+		}
+		k, err := strconv.Atoi(words[1])
+		if err != nil {
+			return fmt.Errorf("%s:%d: bad return ordinal", path, line)
+		}
+		kind, lab := words[2], ""
+		if m := labelRe.FindStringSubmatch(kind); m != nil {
+			kind, lab = m[1], m[2]
+		}
+		if kind != "ensures" {
+			return fmt.Errorf("%s:%d: return k ensures expr", path, line)
+		}
+		idx := strings.Index(text, words[2])
+		cl, err := mkClause(strings.TrimSpace(text[idx+len(words[2]):]), path, line, lab)
+		if err != nil {
+			return err
+		}
+		c.Returns = append(c.Returns, RetSpec{K: k, Assert: cl})
 	case "call":
 		// call callee#k assert expr
 		if len(words) < 4 || words[2] != "assert" {
